@@ -71,6 +71,7 @@ fn oracles() -> Vec<(&'static str, Enumerate, Check)> {
         ("c01_solve_all", o_solver::enum_prog_solve_all, o_solver::check_program),
         ("c02_prog", o_solver::enum_prog_cut, o_solver::check_program),
         ("c03_prog", o_solver::enum_prog_not, o_solver::check_program),
+        ("c14_infix", o_contexts::enum_infix, o_contexts::check_infix_meaning),
         ("c20_contexts", o_contexts::enum_contexts, o_contexts::check_contexts),
         ("c20_strict", o_contexts::enum_contexts, o_contexts::check_strict),
         ("c20_known_flags", o_contexts::enum_known_flags, o_contexts::check_strict),
